@@ -522,8 +522,15 @@ func mutateReturnedSlices(c psatoken.IClaims) {
 
 func TestC18_Aliasing(t *testing.T) {
 	st := NewStats("C18", "TestC18_Aliasing", "rapid: a valid (or deviating) claims-set is encoded (CBOR by the independent encoder, JSON by the library, COSE by signing); decoding happens from a private copy of those bytes, after which the copy is overwritten with 0x00 / 0xff / xor-noise: all getters, validity, both encodings (and for COSE: Verify with the right and a wrong key, the re-marshalled JSON) must be unchanged, and the decoder must not have written to its input; a second instance decoded from the same buffer must be unaffected by writes into every slice the first instance's getters return and by its setters. Non-trivial = every case (distinct buffers); distinct = format + class vector + scribble kind")
-	st.Require = []string{"cbor", "json", "cose"}
+	st.Require = []string{"cbor", "json", "cose", "cbor-ext", "cose-ext"}
 	defer st.Flush(t)
+	registerMu.Lock()
+	defer registerMu.Unlock()
+	restore := psatoken.VerifCheckpointProfiles()
+	defer restore()
+	if err := psatoken.RegisterProfile(rawP2Profile{}); err != nil {
+		t.Fatalf("VERIF-INFRA: %v", err)
+	}
 	rapid.Check(t, func(t *rapid.T) {
 		p := drawProf(t)
 		var m *MClaims
@@ -532,10 +539,29 @@ func TestC18_Aliasing(t *testing.T) {
 		} else {
 			m = GenAny(t, p)
 		}
-		format := rapid.SampledFrom([]string{"cbor", "json", "cose"}).Draw(t, "format")
+		format := rapid.SampledFrom([]string{"cbor", "json", "cose", "cbor-ext", "cose-ext"}).Draw(t, "format")
+		if strings.HasSuffix(format, "-ext") {
+			// a token of a registered extension profile whose own claims are
+			// kept as raw CBOR / as a byte string
+			p = P2
+			m = GenValid(t, P2, false)
+		}
 		var orig []byte
 		var kp keyPair
 		switch format {
+		case "cbor-ext", "cose-ext":
+			ps := append(bodyPairs(m), icbor.P(icbor.U(265), icbor.Tstr(RawP2Name)),
+				icbor.P(icbor.I(-75500), rapid.SampledFrom([]*icbor.Node{icbor.Bstr(drawBytes(t, 40, "blob")), icbor.Arr(icbor.U(1), icbor.Tstr("two"), icbor.Bstr(drawBytes(t, 9, "b9"))), icbor.Map(icbor.P(icbor.U(1), icbor.Tstr("vendor data of some length")))}).Draw(t, "blobkind")),
+				icbor.P(icbor.I(-75501), icbor.Bstr(drawBytes(t, 24, "tail"))))
+			orig = icbor.Encode(icbor.Map(ps...))
+			if format == "cose-ext" {
+				kp = keyFor(rapid.SampledFrom(fastAlgs).Draw(t, "alg"), 0)
+				tok, err := icose.SignedToken(kp.Alg, kp.Priv, orig)
+				if err != nil {
+					t.Fatalf("VERIF-INFRA: %v", err)
+				}
+				orig = tok
+			}
 		case "cbor":
 			orig = permutedToken(t, m)
 		case "json":
@@ -561,7 +587,7 @@ func TestC18_Aliasing(t *testing.T) {
 		var ev *psatoken.Evidence
 		var err error
 		switch format {
-		case "cbor":
+		case "cbor", "cbor-ext":
 			c, err = psatoken.DecodeClaimsFromCBOR(buf)
 			if err == nil {
 				c2, _ = psatoken.DecodeClaimsFromCBOR(buf)
@@ -586,8 +612,14 @@ func TestC18_Aliasing(t *testing.T) {
 			st.Case("", "undecodable", format)
 			return
 		}
+		if strings.HasSuffix(format, "-ext") {
+			if _, ok := c.(*RawP2Claims); !ok || err != nil {
+				t.Fatalf("VERIF-INFRA: extension token does not decode as such: %T %v", c, err)
+			}
+		}
 		obs0 := Observe(c)
 		obs2 := Observe(c2)
+		fp0 := visibleFP(c)
 		var v0, w0 bool
 		var js0 string
 		if ev != nil {
@@ -600,6 +632,9 @@ func TestC18_Aliasing(t *testing.T) {
 			}
 		}
 		scribble(t, buf)
+		if fp := visibleFP(c); fp != fp0 {
+			t.Fatalf("C18 violated: overwriting the input buffer after decoding (%s) changed what the decoded claims hold (they keep a reference into the caller's buffer): %s", format, firstDiff(fp0, fp))
+		}
 		if d := obs0.Diff(Observe(c)); d != "" {
 			t.Fatalf("C18 violated: overwriting the input buffer after decoding (%s) changed the decoded claims: %s", format, d)
 		}
